@@ -64,6 +64,10 @@ theorem step_quiet {s s' : S} {l : Label} (h : step s l = some s') (hq : quiet l
       split at h <;> simp at h; subst h; simp [allowance, hf, h0]
     · simp at h
   case rReturn => simp at hq
+  case rCtl =>
+    split at h <;> simp at h <;> subst h <;> rename_i h0 <;> simp [allowance, hf, h0]
+  case rExit =>
+    split at h <;> simp at h; subst h; rename_i h0; simp [allowance, hf, h0]
 
 def allQuiet (ls : List Label) : Bool := ls.all quiet
 
@@ -175,6 +179,14 @@ theorem step_valInv {s s' : S} {l : Label} (h : step s l = some s') (I : ValInv 
     split at h
     · split at h <;> simp at h; subst h; exact ⟨i1, by simp, i3, by simp⟩
     · simp at h
+  case rCtl =>
+    split at h <;> simp at h <;> subst h
+    · exact ⟨i1, i2, i3, i4⟩
+    · exact ⟨i1, i2, i3, by simp⟩
+    · exact ⟨i1, i2, i3, by simp⟩
+    · exact ⟨i1, i2, i3, by simp⟩
+  case rExit =>
+    split at h <;> simp at h; subst h; exact ⟨i1, i2, i3, by simp⟩
 
 theorem run_valInv {ls : List Label} : ∀ {s s' : S}, run s ls = some s' → ValInv s → ValInv s' := by
   induction ls with
@@ -185,6 +197,15 @@ theorem run_valInv {ls : List Label} : ∀ {s s' : S}, run s ls = some s' → Va
     split at h
     · rename_i s1 h1; exact ih h (step_valInv h1 I)
     · simp at h
+
+theorem run_append (s : S) (a b : List Label) : run s (a ++ b) = (run s a).bind (fun s' => run s' b) := by
+  induction a generalizing s with
+  | nil => simp [run]
+  | cons l ls ih =>
+    simp only [List.cons_append, run]
+    cases step s l with
+    | none => simp
+    | some s1 => simpa using ih s1
 
 end GojaModel.C15.Conc
 
@@ -222,20 +243,50 @@ theorem handleThrow_none_handlers (hs rest : List TF) (m : TF) (cs : Nat) (hh : 
       exact ih (fun x hx => hh x (by simp [hx]))
     · exact absurd h htf
 
+/-! ### elementary facts about the state transformers -/
+
+theorem pollStep_flag {c : Cfg} {st : St} (h : st.flag = true) : pollStep c st = { st with polls := st.polls + 1 } := by
+  simp [pollStep, h]
+
+theorem pollStep_ts (c : Cfg) (st : St) : (pollStep c st).ts = st.ts := by unfold pollStep; split <;> rfl
+theorem pollStep_cs (c : Cfg) (st : St) : (pollStep c st).cs = st.cs := by unfold pollStep; split <;> rfl
+theorem pollStep_car (c : Cfg) (st : St) : (pollStep c st).car = st.car := by unfold pollStep; split <;> rfl
+theorem pollStep_log (c : Cfg) (st : St) : (pollStep c st).log = st.log := by unfold pollStep; split <;> rfl
+theorem pollStep_queue (c : Cfg) (st : St) : (pollStep c st).queue = st.queue := by unfold pollStep; split <;> rfl
+theorem pollStep_execs (c : Cfg) (st : St) : (pollStep c st).execs = st.execs := by unfold pollStep; split <;> rfl
+theorem doProbe_ts (c : Cfg) (st : St) : (doProbe c st).ts = st.ts := by simp only [doProbe]; split <;> rfl
+theorem doProbe_cs (c : Cfg) (st : St) : (doProbe c st).cs = st.cs := by simp only [doProbe]; split <;> rfl
+theorem doProbe_car (c : Cfg) (st : St) : (doProbe c st).car = st.car := by simp only [doProbe]; split <;> rfl
+
+/-- what may differ between two states when no script code ran: only ghosts (`polls`, `tr`) -/
+structure SameObs (st st' : St) : Prop where
+  flag : st'.flag = st.flag
+  val : st'.val = st.val
+  log : st'.log = st.log
+  queue : st'.queue = st.queue
+  cs : st'.cs = st.cs
+  ts : st'.ts = st.ts
+  car : st'.car = st.car
+  execs : st'.execs = st.execs
+  frozen : st'.frozen = st.frozen
+
+theorem sameObs_raise_poll {c : Cfg} {st : St} (h : st.flag = true) : SameObs st (raise (pollStep c st)) := by
+  rw [pollStep_flag h]; constructor <;> rfl
+
 /-- Once the flag is visible a statement does nothing but raise. -/
 theorem exec_flag (fuel : Nat) (c : Cfg) (s : Stmt) (st : St) (h : st.flag = true) :
-    exec fuel c s st = (.intr st.val, st) ∨ exec fuel c s st = (.oof, st) := by
+    exec fuel c s st = (.intr st.val, raise (pollStep c st)) ∨ exec fuel c s st = (.oof, st) := by
   cases fuel with
   | zero => right; simp [exec]
-  | succ n => left; simp [exec, h]
+  | succ n => left; simp [exec, pollStep_flag h, h]
 
 theorem execBlock_flag (fuel : Nat) (c : Cfg) (b : List Stmt) (st : St) (h : st.flag = true) :
-    execBlock fuel c b st = (.intr st.val, st) ∨ execBlock fuel c b st = (.oof, st) := by
+    execBlock fuel c b st = (.intr st.val, raise (pollStep c st)) ∨ execBlock fuel c b st = (.oof, st) := by
   cases fuel with
   | zero => right; simp [execBlock]
   | succ n =>
     cases b with
-    | nil => left; simp [execBlock, h]
+    | nil => left; simp [execBlock, pollStep_flag h, h]
     | cons s rest =>
       rcases exec_flag n c s st h with e | e
       · left; simp [execBlock, e]
@@ -250,456 +301,9 @@ theorem execFrame_flag (fuel : Nat) (c : Cfg) (g swI swT : Bool) (b : List Stmt)
     have hf : (enterFrame g st).flag = true := by cases g <;> simp [enterFrame, h]
     rcases execBlock_flag n c b (enterFrame g st) hf with e | e
     · simp only [execFrame, e]
-      cases g <;> cases swI <;> simp [enterFrame, h]
+      rw [pollStep_flag hf]
+      cases g <;> cases swI <;> simp [enterFrame, h, raise, emit]
     · simp only [execFrame, e]
       cases g <;> simp [enterFrame, h]
-
-/-! ### stack balance: every construct leaves the try stack and the call stack as it found them, also when an
-    uncatchable error passes through (then only script-level handler frames may remain above, for the enclosing
-    handleThrow to skip, and contexts for it to truncate) -/
-
-def Bal (st : St) (r : Outcome × St) : Prop :=
-  ((r.1 = .normal ∨ r.1 = .thrown) → r.2.ts = st.ts ∧ r.2.cs = st.cs) ∧
-  (∀ v, r.1 = .intr v → ∃ hs, allHandlers hs ∧ r.2.ts = hs ++ st.ts ∧ st.cs ≤ r.2.cs)
-
-/-- frames whose marker is popped in a `defer` (and generator frames inside them) restore exactly -/
-def BalStrong (st : St) (r : Outcome × St) : Prop :=
-  r.1 ≠ .oof → r.2.ts = st.ts ∧ r.2.cs = st.cs
-
-theorem allHandlers_nil : allHandlers [] := by intro tf h; cases h
-
-theorem BalStrong.toBal {st : St} {r : Outcome × St} (h : BalStrong st r) : Bal st r := by
-  constructor
-  · intro ho; apply h; rcases ho with ho | ho <;> simp [ho]
-  · intro v hv
-    have := h (by simp [hv])
-    exact ⟨[], allHandlers_nil, by simp [this.1], by omega⟩
-
-theorem Bal.of_eq {st st0 : St} {r : Outcome × St} (hts : st.ts = st0.ts) (hcs : st.cs = st0.cs) (h : Bal st r) :
-    Bal st0 r := by
-  unfold Bal at *; rw [hts, hcs] at h; exact h
-
-theorem Bal.intr_self (st : St) (v : Nat) : Bal st (.intr v, st) := by
-  constructor
-  · intro h; simp at h
-  · intro _ _; exact ⟨[], allHandlers_nil, by simp, Nat.le_refl _⟩
-
-theorem Bal.oof (st st' : St) : Bal st (.oof, st') := by
-  constructor
-  · intro h; rcases h with h | h <;> simp at h
-  · intro v h; simp at h
-
-theorem Bal.same {st st' : St} (o : Outcome) (hts : st'.ts = st.ts) (hcs : st'.cs = st.cs) : Bal st (o, st') := by
-  constructor
-  · intro _; exact ⟨hts, hcs⟩
-  · intro v _; exact ⟨[], allHandlers_nil, by simp [hts], Nat.le_of_eq hcs.symm⟩
-
-theorem Bal.andThen {st : St} {r r' : Outcome × St} (h : Bal st r) (hn : r.1 = .normal) (h' : Bal r.2 r') : Bal st r' :=
-  Bal.of_eq (h.1 (Or.inl hn)).1 (h.1 (Or.inl hn)).2 h'
-
-theorem BalStrong.andThen {st : St} {r r' : Outcome × St} (h : BalStrong st r) (hn : r.1 = .normal)
-    (h' : BalStrong r.2 r') : BalStrong st r' := by
-  intro ho
-  have a := h (by simp [hn])
-  have b := h' ho
-  exact ⟨by rw [b.1, a.1], by rw [b.2, a.2]⟩
-
-structure IH (n : Nat) : Prop where
-  exec : ∀ c s st, Bal st (exec n c s st)
-  block : ∀ c b st, Bal st (execBlock n c b st)
-  loop : ∀ c k b st, Bal st (execLoop n c k b st)
-  frame : ∀ c g i t b st, Bal st (execFrame n c g i t b st)
-  frameS : ∀ c i t b st, BalStrong st (execFrame n c false i t b st)
-  native : ∀ c g i t k b st, Bal st (execNative n c g i t k b st)
-  forOf : ∀ c i k brk nx b rt st, Bal st (execForOf n c i k brk nx b rt st)
-
-theorem ih_zero : IH 0 := by
-  constructor <;> intros <;> simp [exec, execBlock, execLoop, execFrame, execNative, execForOf, Bal, BalStrong]
-
-theorem handlerTF_isHandler (cs : Nat) (hc hf : Bool) : (handlerTF cs hc hf).catchPos ≠ tryPanicMarker := by
-  cases hc <;> simp [handlerTF, tryPanicMarker]
-
-theorem bal_block_succ {n : Nat} (ih : IH n) (c : Cfg) (b : List Stmt) (st : St) : Bal st (execBlock (n + 1) c b st) := by
-  cases b with
-  | nil =>
-    simp only [execBlock]; split
-    · exact Bal.intr_self _ _
-    · exact Bal.same _ rfl rfl
-  | cons s rest =>
-    simp only [execBlock]
-    have h1 := ih.exec c s st
-    split
-    · rename_i hn; exact h1.andThen hn (ih.block c rest _)
-    · exact h1
-
-theorem bal_loop_succ {n : Nat} (ih : IH n) (c : Cfg) (k : Nat) (b : List Stmt) (st : St) :
-    Bal st (execLoop (n + 1) c k b st) := by
-  cases k with
-  | zero => simp only [execLoop]; exact Bal.same _ rfl rfl
-  | succ k =>
-    simp only [execLoop]
-    have h1 := ih.block c b st
-    split
-    · rename_i hn; exact h1.andThen hn (ih.loop c k b _)
-    · exact h1
-
-theorem enterFrame_ts_cs (g : Bool) (st : St) :
-    (enterFrame g st).ts = markerTF (if g then st.cs + 1 else st.cs) :: st.ts ∧
-    (enterFrame g st).cs = (if g then st.cs + 2 else st.cs + 1) := by
-  cases g <;> simp [enterFrame]
-
-/-- what the frame's own handleThrow(ex = nil) sees and does -/
-theorem frame_unwind {g : Bool} {st : St} {r : Outcome × St} {v : Nat} (hb : Bal (enterFrame g st) r) (hv : r.1 = .intr v) :
-    (unwindNone r.2.ts r.2.cs).1.tail = st.ts ∧
-    (unwindNone r.2.ts r.2.cs).2 = (if g then st.cs + 1 else st.cs) := by
-  obtain ⟨hs, hh, hts, hcs⟩ := hb.2 v hv
-  have e := enterFrame_ts_cs g st
-  rw [e.1] at hts; rw [e.2] at hcs
-  have hm := handleThrow_none_handlers hs st.ts (markerTF (if g then st.cs + 1 else st.cs)) r.2.cs hh rfl
-  simp only [unwindNone, hts, hm, List.tail_cons, true_and]
-  simp only [truncCs, markerTF]
-  cases g <;> simp at hcs ⊢ <;> omega
-
-theorem bal_frame_succ {n : Nat} (ih : IH n) (c : Cfg) (g i t : Bool) (b : List Stmt) (st : St) :
-    Bal st (execFrame (n + 1) c g i t b st) ∧ (g = false → BalStrong st (execFrame (n + 1) c g i t b st)) := by
-  simp only [execFrame]
-  have hb := ih.block c b (enterFrame g st)
-  generalize execBlock n c b (enterFrame g st) = r at hb ⊢
-  obtain ⟨o, st1⟩ := r
-  cases o with
-  | normal => exact ⟨Bal.same _ rfl rfl, fun _ _ => ⟨rfl, rfl⟩⟩
-  | thrown => exact ⟨Bal.same _ rfl rfl, fun _ _ => ⟨rfl, rfl⟩⟩
-  | oof => exact ⟨Bal.oof _ _, fun _ h => absurd rfl h⟩
-  | intr v =>
-    have hu := frame_unwind hb (v := v) rfl
-    cases g with
-    | true =>
-      simp only [if_true] at hu ⊢
-      refine ⟨?_, fun h => by cases h⟩
-      constructor
-      · intro h; simp at h
-      · intro v' _; exact ⟨[], allHandlers_nil, by simp, by simp [hu.2]⟩
-    | false =>
-      simp only [Bool.false_eq_true, if_false] at hu ⊢
-      cases i with
-      | true => simp only [if_true]; exact ⟨Bal.same _ hu.1 hu.2, fun _ _ => ⟨hu.1, hu.2⟩⟩
-      | false => simp only [Bool.false_eq_true, if_false]; exact ⟨Bal.same _ hu.1 hu.2, fun _ _ => ⟨hu.1, hu.2⟩⟩
-
-theorem bal_native_succ {n : Nat} (ih : IH n) (c : Cfg) (g i t : Bool) (k : Nat) (b : List Stmt) (st : St) :
-    Bal st (execNative (n + 1) c g i t k b st) := by
-  cases k with
-  | zero => simp only [execNative]; exact Bal.same _ rfl rfl
-  | succ k =>
-    simp only [execNative]
-    have h1 := ih.frame c g i t b st
-    split
-    · rename_i hn; exact h1.andThen hn (ih.native c g i t k b _)
-    · exact h1
-
-theorem bal_forOf_succ {n : Nat} (ih : IH n) (c : Cfg) (i k : Nat) (brk : Bool) (nx b rt : List Stmt) (st : St) :
-    Bal st (execForOf (n + 1) c i k brk nx b rt st) := by
-  simp only [execForOf]
-  have h1 := ih.frame c false false false nx st
-  split
-  · rename_i hn1
-    split
-    · have h2 := h1.andThen hn1 (ih.block c b _)
-      split
-      · rename_i hn2
-        split
-        · exact h2.andThen hn2 (ih.frame c false false false rt _)
-        · exact h2.andThen hn2 (ih.forOf c (i + 1) k brk nx b rt _)
-      · split
-        · -- body threw: iterator closed, then the throw continues
-          rename_i hth
-          have hbs := h2.1 (Or.inr hth)
-          have h3 : Bal st (execFrame n c false false false rt (execBlock n c b (execFrame n c false false false nx st).2).2) :=
-            Bal.of_eq hbs.1 hbs.2 (ih.frame c false false false rt _)
-          split
-          · exact h3
-          · rename_i hna
-            have hs := ih.frameS c false false rt (execBlock n c b (execFrame n c false false false nx st).2).2
-            have : (execFrame n c false false false rt (execBlock n c b (execFrame n c false false false nx st).2).2).1 ≠ .oof := by
-              intro ho; simp [ho, Outcome.isAbort] at hna
-            have e := hs this
-            exact Bal.same _ (by rw [e.1, hbs.1]) (by rw [e.2, hbs.2])
-        · exact h2
-    · exact h1
-  · exact h1
-
-theorem bal_exec_succ {n : Nat} (ih : IH n) (c : Cfg) (s : Stmt) (st : St) : Bal st (exec (n + 1) c s st) := by
-  simp only [exec]
-  split
-  · exact Bal.intr_self _ _
-  · cases s with
-    | log k => exact Bal.same _ rfl rfl
-    | probe => exact Bal.same _ (by simp only [doProbe]; split <;> rfl) (by simp only [doProbe]; split <;> rfl)
-    | throw => exact Bal.same _ rfl rfl
-    | enqueue j => exact Bal.same _ rfl rfl
-    | loop k b => exact Bal.of_eq rfl rfl (ih.loop c k b _)
-    | native g i t k b => exact Bal.of_eq rfl rfl (ih.native c g i t k b _)
-    | forOf k brk nx b rt => exact Bal.of_eq rfl rfl (ih.forOf c 0 k brk nx b rt _)
-    | tryc hc hf body cat fin =>
-      simp only []
-      generalize hr1 : execBlock n c body _ = r1
-      have hb : Bal _ r1 := hr1 ▸ ih.block c body _
-      split
-      · -- uncatchable (or out of fuel) from the body: the handler frame stays on the try stack
-        constructor
-        · intro h; rename_i ha; rcases h with h | h <;> simp [h, Outcome.isAbort] at ha
-        · intro v hv
-          obtain ⟨hs, hh, hts, hcs⟩ := hb.2 v hv
-          refine ⟨hs ++ [handlerTF st.cs hc hf], ?_, by simp [hts], hcs⟩
-          intro tf htf
-          rcases List.mem_append.mp htf with h | h
-          · exact hh tf h
-          · simp at h; subst h; exact handlerTF_isHandler _ _ _
-      · generalize hr2 : (if r1.1 = Outcome.thrown ∧ hc = true then execBlock n c cat _ else (r1.1, _)) = r2
-        have hb2 : Bal st r2 := by
-          subst hr2
-          split
-          · exact Bal.of_eq rfl rfl (ih.block c cat _)
-          · exact Bal.same _ rfl rfl
-        split
-        · exact hb2
-        · rename_i hna2
-          have hn2 : r2.1 = .normal ∨ r2.1 = .thrown := by
-            cases h : r2.1 <;> simp [h, Outcome.isAbort] at hna2 ⊢
-          split
-          · have hb3 : Bal st (execBlock n c fin r2.2) := Bal.of_eq (hb2.1 hn2).1 (hb2.1 hn2).2 (ih.block c fin _)
-            split
-            · rename_i hn3
-              exact Bal.same _ (hb3.1 (Or.inl hn3)).1 (hb3.1 (Or.inl hn3)).2
-            · exact hb3
-          · exact hb2
-
-theorem ih_succ {n : Nat} (ih : IH n) : IH (n + 1) where
-  exec := bal_exec_succ ih
-  block := bal_block_succ ih
-  loop := bal_loop_succ ih
-  frame := fun c g i t b st => (bal_frame_succ ih c g i t b st).1
-  frameS := fun c i t b st => (bal_frame_succ ih c false i t b st).2 rfl
-  native := bal_native_succ ih
-  forOf := bal_forOf_succ ih
-
-theorem ih_all (n : Nat) : IH n := by
-  induction n with
-  | zero => exact ih_zero
-  | succ n ih => exact ih_succ ih
-
-/-- leave(): every job frame restores exactly, so the drain loop does -/
-theorem runJobs_balStrong (n : Nat) : ∀ (c : Cfg) (batch : List (List Stmt)) (st : St), BalStrong st (runJobs n c batch st) := by
-  induction n with
-  | zero => intro c batch st h; simp [runJobs] at h
-  | succ n ih =>
-    intro c batch st
-    cases batch with
-    | nil =>
-      simp only [runJobs]
-      split
-      · intro _; exact ⟨rfl, rfl⟩
-      · exact fun h => ih c _ _ h
-    | cons job batch =>
-      simp only [runJobs]
-      have h1 := (ih_all n).frameS c false true job st
-      split
-      · rename_i hn; exact h1.andThen hn (ih c batch _)
-      · exact h1
-
-/-! ### the interrupt invariant: from the instant a probe calls Interrupt(v) the event log never grows again and the
-    value cell holds v; an uncatchable outcome is only ever produced with the flag visible and carries the cell -/
-
-def Inv (c : Cfg) (st : St) : Prop := st.flag = true → st.log = st.frozen ∧ st.val = c.v
-
-def Good (c : Cfg) (r : Outcome × St) : Prop :=
-  Inv c r.2 ∧ (∀ v, r.1 = .intr v → r.2.flag = true ∧ r.2.val = v)
-
-theorem Inv.of_eq {c : Cfg} {st st' : St} (h : Inv c st) (hf : st'.flag = st.flag) (hl : st'.log = st.log)
-    (hz : st'.frozen = st.frozen) (hv : st'.val = st.val) : Inv c st' := by
-  intro hflag; rw [hf] at hflag; rw [hl, hz, hv]; exact h hflag
-
-theorem Inv.of_false {c : Cfg} {st : St} (h : st.flag = false) : Inv c st := by
-  intro hf; rw [h] at hf; cases hf
-
-theorem Good.poll {c : Cfg} {st : St} (h : Inv c st) (hf : st.flag = true) : Good c (.intr st.val, st) :=
-  ⟨h, fun _ hv => by cases hv; exact ⟨hf, rfl⟩⟩
-
-theorem Good.plain {c : Cfg} {o : Outcome} {st : St} (h : Inv c st) (ho : ∀ v, o ≠ .intr v) : Good c (o, st) :=
-  ⟨h, fun v hv => absurd hv (ho v)⟩
-
-/-- changing only the stacks keeps `Good` -/
-theorem Good.restack {c : Cfg} {r : Outcome × St} (h : Good c r) (o : Outcome) (st' : St)
-    (ho : ∀ v, o = .intr v → r.1 = .intr v)
-    (hf : st'.flag = r.2.flag) (hl : st'.log = r.2.log) (hz : st'.frozen = r.2.frozen) (hv : st'.val = r.2.val) :
-    Good c (o, st') := by
-  refine ⟨h.1.of_eq hf hl hz hv, fun v hvv => ?_⟩
-  have := h.2 v (ho v hvv)
-  exact ⟨by rw [hf]; exact this.1, by rw [hv]; exact this.2⟩
-
-structure IH2 (n : Nat) : Prop where
-  exec : ∀ c s st, Inv c st → Good c (exec n c s st)
-  block : ∀ c b st, Inv c st → Good c (execBlock n c b st)
-  loop : ∀ c k b st, Inv c st → Good c (execLoop n c k b st)
-  frame : ∀ c g i t b st, Inv c st → Good c (execFrame n c g i t b st)
-  native : ∀ c g i t k b st, Inv c st → Good c (execNative n c g i t k b st)
-  forOf : ∀ c i k brk nx b rt st, Inv c st → Good c (execForOf n c i k brk nx b rt st)
-
-theorem ih2_zero : IH2 0 := by
-  constructor <;> intros <;> simp only [exec, execBlock, execLoop, execFrame, execNative, execForOf] <;>
-    exact Good.plain (by assumption) (by intro v h; cases h)
-
-theorem good_block_succ {n : Nat} (ih : IH2 n) (c : Cfg) (b : List Stmt) (st : St) (hI : Inv c st) :
-    Good c (execBlock (n + 1) c b st) := by
-  cases b with
-  | nil =>
-    simp only [execBlock]; split
-    · rename_i hf; exact Good.poll hI hf
-    · exact Good.plain hI (by intro v h; cases h)
-  | cons s rest =>
-    simp only [execBlock]
-    have h1 := ih.exec c s st hI
-    split
-    · exact ih.block c rest _ h1.1
-    · exact h1
-
-theorem good_loop_succ {n : Nat} (ih : IH2 n) (c : Cfg) (k : Nat) (b : List Stmt) (st : St) (hI : Inv c st) :
-    Good c (execLoop (n + 1) c k b st) := by
-  cases k with
-  | zero => simp only [execLoop]; exact Good.plain hI (by intro v h; cases h)
-  | succ k =>
-    simp only [execLoop]
-    have h1 := ih.block c b st hI
-    split
-    · exact ih.loop c k b _ h1.1
-    · exact h1
-
-theorem inv_enterFrame {c : Cfg} {st : St} (g : Bool) (hI : Inv c st) : Inv c (enterFrame g st) := by
-  cases g <;> exact hI.of_eq rfl rfl rfl rfl
-
-theorem good_frame_succ {n : Nat} (ih : IH2 n) (c : Cfg) (g i t : Bool) (b : List Stmt) (st : St) (hI : Inv c st) :
-    Good c (execFrame (n + 1) c g i t b st) := by
-  simp only [execFrame]
-  have hb := ih.block c b (enterFrame g st) (inv_enterFrame g hI)
-  generalize execBlock n c b (enterFrame g st) = r at hb ⊢
-  obtain ⟨o, st1⟩ := r
-  cases o with
-  | normal => exact hb.restack _ _ (by intro v h; cases h) rfl rfl rfl rfl
-  | thrown => exact hb.restack _ _ (by intro v h; cases t <;> simp at h) rfl rfl rfl rfl
-  | oof => exact hb
-  | intr v =>
-    cases g with
-    | true => simp only [if_true]; exact hb.restack _ _ (fun _ h => h) rfl rfl rfl rfl
-    | false =>
-      simp only [Bool.false_eq_true, if_false]
-      cases i with
-      | true => simp only [if_true]; exact hb.restack _ _ (by intro v h; cases h) rfl rfl rfl rfl
-      | false => simp only [Bool.false_eq_true, if_false]; exact hb.restack _ _ (fun _ h => h) rfl rfl rfl rfl
-
-theorem good_native_succ {n : Nat} (ih : IH2 n) (c : Cfg) (g i t : Bool) (k : Nat) (b : List Stmt) (st : St)
-    (hI : Inv c st) : Good c (execNative (n + 1) c g i t k b st) := by
-  cases k with
-  | zero => simp only [execNative]; exact Good.plain hI (by intro v h; cases h)
-  | succ k =>
-    simp only [execNative]
-    have h1 := ih.frame c g i t b st hI
-    split
-    · exact ih.native c g i t k b _ h1.1
-    · exact h1
-
-theorem good_forOf_succ {n : Nat} (ih : IH2 n) (c : Cfg) (i k : Nat) (brk : Bool) (nx b rt : List Stmt) (st : St)
-    (hI : Inv c st) : Good c (execForOf (n + 1) c i k brk nx b rt st) := by
-  simp only [execForOf]
-  have h1 := ih.frame c false false false nx st hI
-  split
-  · split
-    · have h2 := ih.block c b _ h1.1
-      split
-      · split
-        · exact ih.frame c false false false rt _ h2.1
-        · exact ih.forOf c (i + 1) k brk nx b rt _ h2.1
-      · split
-        · have h3 := ih.frame c false false false rt _ h2.1
-          split
-          · exact h3
-          · exact Good.plain h3.1 (by intro v h; cases h)
-        · exact h2
-    · exact h1
-  · exact h1
-
-theorem inv_doProbe {c : Cfg} {st : St} (hf : st.flag = false) : Inv c (doProbe c st) := by
-  simp only [doProbe]
-  split
-  · intro _; exact ⟨rfl, rfl⟩
-  · exact Inv.of_false hf
-
-theorem good_exec_succ {n : Nat} (ih : IH2 n) (c : Cfg) (s : Stmt) (st : St) (hI : Inv c st) :
-    Good c (exec (n + 1) c s st) := by
-  simp only [exec]
-  split
-  · rename_i hf; exact Good.poll hI hf
-  · rename_i hnf
-    have hff : st.flag = false := by cases h : st.flag <;> simp [h] at hnf ⊢
-    have hI' : Inv c { st with execs := st.execs + 1 } := Inv.of_false hff
-    cases s with
-    | log k => exact Good.plain (Inv.of_false hff) (by intro v h; cases h)
-    | probe => exact Good.plain (inv_doProbe hff) (by intro v h; cases h)
-    | throw => exact Good.plain hI' (by intro v h; cases h)
-    | enqueue j => exact Good.plain (Inv.of_false hff) (by intro v h; cases h)
-    | loop k b => exact ih.loop c k b _ hI'
-    | native g i t k b => exact ih.native c g i t k b _ hI'
-    | forOf k brk nx b rt => exact ih.forOf c 0 k brk nx b rt _ hI'
-    | tryc hc hf body cat fin =>
-      simp only []
-      generalize hr1 : execBlock n c body _ = r1
-      have hb : Good c r1 := hr1 ▸ ih.block c body _ (Inv.of_false hff)
-      split
-      · exact hb
-      · generalize hr2 : (if r1.1 = Outcome.thrown ∧ hc = true then execBlock n c cat _ else (r1.1, _)) = r2
-        have hb2 : Good c r2 := by
-          subst hr2
-          split
-          · exact ih.block c cat _ (hb.1.of_eq rfl rfl rfl rfl)
-          · rename_i hna _
-            exact Good.plain (hb.1.of_eq rfl rfl rfl rfl) (by intro v h; simp [h, Outcome.isAbort] at hna)
-        split
-        · exact hb2
-        · rename_i hna2
-          split
-          · have hb3 := ih.block c fin r2.2 hb2.1
-            split
-            · exact Good.plain hb3.1 (by intro v h; simp [h, Outcome.isAbort] at hna2)
-            · exact hb3
-          · exact hb2
-
-theorem ih2_succ {n : Nat} (ih : IH2 n) : IH2 (n + 1) where
-  exec := good_exec_succ ih
-  block := good_block_succ ih
-  loop := good_loop_succ ih
-  frame := good_frame_succ ih
-  native := good_native_succ ih
-  forOf := good_forOf_succ ih
-
-theorem ih2_all (n : Nat) : IH2 n := by
-  induction n with
-  | zero => exact ih2_zero
-  | succ n ih => exact ih2_succ ih
-
-theorem runJobs_good (n : Nat) : ∀ (c : Cfg) (batch : List (List Stmt)) (st : St), Inv c st → Good c (runJobs n c batch st) := by
-  induction n with
-  | zero => intro c batch st hI; simp only [runJobs]; exact Good.plain hI (by intro v h; cases h)
-  | succ n ih =>
-    intro c batch st hI
-    cases batch with
-    | nil =>
-      simp only [runJobs]
-      split
-      · exact Good.plain hI (by intro v h; cases h)
-      · exact ih c _ _ (hI.of_eq rfl rfl rfl rfl)
-    | cons job batch =>
-      simp only [runJobs]
-      have h1 := (ih2_all n).frame c false false true job st hI
-      split
-      · exact ih c batch _ h1.1
-      · exact h1
 
 end GojaModel.C15
